@@ -555,6 +555,9 @@ def _comprehension_form(f, mask_var: str, pass_var: str, prog: Optional[Program]
                           and unparse(x.targets[0].value) == S.name and unparse(x.targets[0].slice) == ix]
                 if len(stores) == 1 and not any(isinstance(x, (ast.Break, ast.Continue)) for x in ast.walk(lp) if _loop_of(x) is lp):
                     aligned = True
+    if not aligned and getattr(S, "is_Symbol", False) and not any(
+            isinstance(x, (ast.Break, ast.Continue)) for lp in f.node.body if isinstance(lp, ast.For) for x in ast.walk(lp)):
+        raise AnalysisError(f"{f.qualname}: how `{S}` is filled (one value per record, in order) is not recognised")
     if not aligned:
         problems.append(f"the decisions are taken over `{S}`, which is not known to hold one value per record in order")
     site = None
@@ -825,6 +828,26 @@ def _r5_r6_max(ck: Checker, prog: Program):
             elems = c.args[0].elts if len(c.args) == 1 and isinstance(c.args[0], (ast.List, ast.Tuple)) else c.args
             if any(isinstance(e, ast.Starred) for e in elems) and any(isinstance(e, ast.Constant) and e.value == 0 for e in elems):
                 run_ok = True
+    forms = 0
+    for st in own_nodes(f.node):
+        if isinstance(st, ast.If) and isinstance(st.test, ast.Compare) and len(st.body) == 1 and isinstance(st.body[0], ast.Assign) and not st.orelse \
+                and isinstance(st.test.left, ast.Name) and isinstance(st.test.comparators[0], ast.Name):
+            forms += 1
+    for c in calls_in(f.node):
+        nm = call_name(c)
+        if nm in ("min", "minimum", "fmin", "amin", "nanmin"):
+            forms += 1
+        if nm in ("maximum", "fmax") and len(c.args) == 2:
+            run_ok = True
+        if nm == "where" and len(c.args) == 3 and isinstance(c.args[0], ast.Compare) and len(c.args[0].ops) == 1:
+            forms += 1
+            t = c.args[0]
+            a, b = unparse(t.left), unparse(t.comparators[0])
+            x, y = unparse(c.args[1]), unparse(c.args[2])
+            if (isinstance(t.ops[0], (ast.Gt, ast.GtE)) and (x, y) == (a, b)) or (isinstance(t.ops[0], (ast.Lt, ast.LtE)) and (x, y) == (b, a)):
+                run_ok = True
+    if not run_ok and not forms:
+        raise AnalysisError(f"{fq}: how the values of the examined components are combined is not recognised")
     if run_ok:
         ck.ok("C13.R5", fq, "maximum over the examined components", nontrivial=False)
     else:
